@@ -610,6 +610,60 @@ def _rows(rep, ex: Explorer, which=("single", "worker", "multi", "manager")):
     return stats
 
 
+def manager_init(rep, ex: Explorer, roles=("belief_base", "inference_system", "smt_solver", "pmaxsat_solver", "weakly")):
+    """MANAGER.init: the constructor of the manager hands its arguments to create_epistemic_state in their own roles
+    (base, operator name, SMT back-end, MaxSAT back-end - blank only for the operators that have none -, mode) and keeps
+    the state it got."""
+    qual = "inference.inference_manager.InferenceManager.__init__"
+    site = fn_label(ex.prog, qual)
+    target = ex.prog.functions.get("inference.inference_manager.create_epistemic_state")
+    if target is None:
+        raise AnalysisError("create_epistemic_state not found")
+    ta = target.node.args
+    tpos = [x.arg for x in ta.posonlyargs + ta.args]
+    held = {}
+
+    def ces(I, fi, args, kwargs, node):
+        bound = {tpos[i]: v for i, v in enumerate(args) if i < len(tpos)}
+        bound.update(kwargs)
+        I.log("mgr.state", node, bound=bound)
+        return Sym(("ES",))
+
+    def setup(I):
+        bb = make_belief_base(I)
+        held["bb"] = bb
+        s = I.alloc(HObj("inference.inference_manager.InferenceManager", {}))
+        held["s"] = s
+        return [s, bb, Sym("system", "str"), Sym("smt", "str"), Sym("pmaxsat", "str"), Sym("weakly", "bool")], {}
+
+    paths = ex.run(qual, setup, summaries={"inference.inference_manager.create_epistemic_state": ces}, key="mgr-init")
+    n = 0
+    for p in paths:
+        if p.outcome[0] != "return":
+            continue
+        n += 1
+        st = [ev for ev, Q in iter_events(p.events) if ev.kind == "mgr.state"]
+        if len(st) != 1:
+            rep.violation("MANAGER.init", site, "state created", "the manager creates its epistemic state once", extracted=f"{len(st)} calls", required="1", function=site)
+            continue
+        b = st[0].bound
+        no_maxsat = any(k[0] == "in" and "system" in repr(k[1]) and v is True and "p-entailment" in repr(k[2]) and "system-z" in repr(k[2]) and "system-w" not in repr(k[2]) and "lex" not in repr(k[2]) and "c-inference" not in repr(k[2])
+                        for k, v in p.decisions)
+        want = {"belief_base": (held["bb"],), "inference_system": (Sym("system", "str"), Sym(("lower", "system", ()), "str")),
+                "smt_solver": (Sym("smt", "str"), Sym(("lower", "smt", ()), "str")),
+                "pmaxsat_solver": (Sym("pmaxsat", "str"), Sym(("lower", "pmaxsat", ()), "str")) + ((Const(""),) if no_maxsat else ()),
+                "weakly": (Sym("weakly", "bool"),)}
+        for role in roles:
+            got = b.get(role)
+            ok = any(got == w or (isinstance(got, Sym) and isinstance(w, Sym) and got.label == w.label) for w in want[role])
+            rep.check(ok, "MANAGER.init", f"{site}:{st[0].node.lineno}", f"argument {role}", "the manager's arguments reach the state in their own roles", extracted=repr(got), required=" or ".join(map(repr, want[role])), function=site)
+        obj = p.state.heap.get(held["s"].oid)
+        kept = isinstance(obj, HObj) and obj.attrs.get("epistemic_state") == Sym(("ES",))
+        rep.check(kept, "MANAGER.init", site, "state kept", "the manager keeps the state it created", extracted=repr(obj.attrs.get("epistemic_state")) if isinstance(obj, HObj) else "?", required="the created state", function=site)
+    rep.floor("manager construction paths", n, 2)
+    return {"manager_init_paths": n}
+
+
 def _check_escape(rep, site, p):
     """The only exceptions that leave a query wrapper are the operator's own (non-expiry) errors: the budget arithmetic
     around the call (creating the deadline, reading the clock) is total."""
@@ -842,58 +896,69 @@ def _manager_rows(rep, ex: Explorer, stats):
 
 
 # ----------------------------------------------------------------------------------------------
+# engine names of pysat.solvers.SolverNames (python-sat as installed; external, read once, frozen here)
+PYSAT_ENGINES = ("cd", "cd103", "cdl", "cdl103", "cadical103", "cd15", "cd153", "cdl15", "cdl153", "cadical153", "cd19", "cd195", "cdl19", "cdl195", "cadical195",
+                 "gc3", "gc30", "gluecard3", "gluecard30", "gc4", "gc41", "gluecard4", "gluecard41", "g3", "g30", "glucose3", "glucose30", "g4", "g41", "glucose4",
+                 "glucose41", "g42", "g421", "glucose42", "glucose421", "lgl", "lingeling", "mcb", "chrono", "maplechrono", "mcm", "maplecm", "mpl", "maple", "maplesat",
+                 "mg3", "mgs3", "mergesat3", "mergesat30", "mc", "mcard", "minicard", "m22", "msat22", "minisat22", "mgh", "msat-gh", "minisat-gh")
+
+
 def backend_dispatch(rep, ex: Explorer):
-    """BACKEND.dispatch / BACKEND.engine-neutral: create_optimizer accepts exactly the rc2* names; the SAT engine is
-    the suffix after 'rc2-' with default g3 and flows only into RC2(solver=...)."""
+    """BACKEND.dispatch / BACKEND.engine-neutral, decided by evaluating the two functions on concrete back-end names:
+    create_optimizer hands every 'rc2' / 'rc2-<engine>' name to the RC2 implementation; the SAT engine RC2 is created
+    with is <engine> (g3 for plain 'rc2'); and apart from that one argument the enumeration does the same thing for
+    every engine (same paths, same decisions, same events; recorded when it is so)."""
+    from ..absvals import HWcnf
+
     prog = ex.prog
     qual = "inference.optimizer.create_optimizer"
     site = fn_label(prog, qual)
-    fi = prog.function(qual)
-    src = ast.unparse(fi.node)
-    calls = [n for n in ast.walk(fi.node) if isinstance(n, ast.Call) and isinstance(n.func, ast.Attribute) and n.func.attr == "startswith"]
-    ok = len(calls) == 1 and isinstance(calls[0].args[0], ast.Constant) and calls[0].args[0].value == "rc2"
-    rep.check(ok, "BACKEND.dispatch", site, "accepted names", "create_optimizer accepts exactly the names starting with 'rc2'",
-              extracted=ast.unparse(calls[0]) if calls else "no prefix test", required="startswith('rc2')", function=site)
     qual2 = "inference.optimizer.OptimizerRC2.minimal_correction_subsets"
     site2 = fn_label(prog, qual2)
-    fi2 = prog.function(qual2)
-    # engine name: str(state.get('pmaxsat_solver', ''))[4:] or 'g3'
-    eng_ok = False
-    eng_desc = "?"
-    for n in ast.walk(fi2.node):
-        if isinstance(n, ast.Subscript) and isinstance(n.slice, ast.Slice) and "pmaxsat_solver" in ast.unparse(n.value):
-            lo = n.slice.lower
-            eng_desc = ast.unparse(n)
-            eng_ok = isinstance(lo, ast.Constant) and lo.value == 4 and n.slice.upper is None
-    rep.check(eng_ok, "BACKEND.dispatch", site2, "engine suffix", "the SAT engine is the text after 'rc2-'", extracted=eng_desc, required="name[4:]", function=site2)
-    default_ok = any(isinstance(n, ast.Constant) and n.value == "g3" for n in ast.walk(fi2.node))
-    rep.check(default_ok, "BACKEND.dispatch", site2, "default engine", "plain 'rc2' selects the default engine g3", extracted="g3" if default_ok else "none", required="g3", function=site2)
-    # engine-neutral: the engine variable is used only as RC2(solver=...)
-    uses = []
-    eng_var = None
-    for n in ast.walk(fi2.node):
-        if isinstance(n, ast.Assign) and isinstance(n.targets[0], ast.Name) and "pmaxsat_solver" in ast.unparse(n.value):
-            eng_var = n.targets[0].id
-    if eng_var:
-        for n in ast.walk(fi2.node):
-            if isinstance(n, ast.Name) and n.id == eng_var and isinstance(n.ctx, ast.Load):
-                uses.append(n)
-        parents = {}
-        for n in ast.walk(fi2.node):
-            for c in ast.iter_child_nodes(n):
-                parents[id(c)] = n
-        bad = []
-        for u in uses:
-            par = parents.get(id(u))
-            if isinstance(par, ast.keyword) and par.arg == "solver":
-                continue
-            if isinstance(par, ast.UnaryOp) and isinstance(par.op, ast.Not):
-                continue  # `if not sat_solver:` default selection
-            if isinstance(par, ast.If) and par.test is u:
-                continue
-            bad.append(ast.unparse(par) if par is not None else "?")
-        rep.check(not bad, "BACKEND.engine-neutral", site2, "engine name uses", "the engine name only selects the SAT engine of RC2", extracted="; ".join(bad) or "RC2(solver=...) only",
-                  required="RC2(solver=engine)", function=site2)
+    NAMES = {"rc2": "g3", "rc2-g3": "g3", "rc2-g4": "g4", "rc2-cd": "cd", "rc2-m22": "m22", "rc2-mgh": "mgh"}
+    shapes = {}
+    n = 0
+    for name, engine in NAMES.items():
+        def setup(I, name=name):
+            es = I.alloc(HDict(entries={"pmaxsat_solver": Const(name)}))
+            return [es], {}
+
+        paths = ex.run(qual, setup, summaries={"inference.optimizer.OptimizerRC2": lambda I, fi, a, k, nd: Sym(("RC2OPT",))}, key=f"co-{name}")
+        ok = bool(paths) and all(p.outcome[0] == "return" and p.outcome[1] == Sym(("RC2OPT",)) for p in paths)
+        rep.check(ok, "BACKEND.dispatch", site, f"name {name}", "create_optimizer hands every rc2 name to the RC2 implementation", extracted="; ".join(f"{p.outcome[0]} {p.outcome[1]!r}" for p in paths)[:120],
+                  required="OptimizerRC2(state)", function=site)
+
+        def setup2(I, name=name):
+            es = I.alloc(HDict(entries={"pmaxsat_solver": Const(name)}))
+            s_ = I.alloc(HObj("inference.optimizer.OptimizerRC2", {"epistemic_state": es}))
+            w = I.alloc(HWcnf(hard=[("sym", "H")], soft=[("sym", "S")]))
+            return [s_, w], {"ignore": ElemV(("ignore",), "coll", "key"), "deadline": Sym("deadline")}
+
+        paths = ex.run(qual2, setup2, summaries=dict(SUMMARIES), key=f"mcs-{name}")
+        engines = set()
+        shape = []
+        for p in paths:
+            evs = []
+            for ev, Q in iter_events(p.events):
+                if ev.kind == "rc2.new":
+                    engines.add(repr(ev.solver))
+                    n += 1
+                evs.append((ev.kind, getattr(ev.node, "lineno", 0)))
+            shape.append((p.outcome[0], tuple((repr(k), repr(v)) for k, v in p.decisions), tuple(evs)))
+        shapes[name] = shape
+        if name == "rc2":
+            # which engine stands in for "no engine named" is a free choice (answers do not depend on it): any engine pysat knows
+            okd = len(engines) == 1 and any(engines == {repr(Const(e))} for e in PYSAT_ENGINES)
+            rep.check(okd, "BACKEND.dispatch", site2, "engine of rc2", "plain 'rc2' selects some SAT engine that pysat knows", extracted=", ".join(sorted(engines)) or "no RC2 created", required="a pysat engine name (today g3)", function=site2)
+        else:
+            rep.check(engines == {repr(Const(engine))}, "BACKEND.dispatch", site2, f"engine of {name}", "the SAT engine is the text after 'rc2-'", extracted=", ".join(sorted(engines)) or "no RC2 created", required=repr(engine), function=site2)
+    # recorded, not demanded: the MCS.* rules decide the enumeration with a symbolic engine name, so code that treats an
+    # engine differently is judged there by what it does, not here by the fact that it differs
+    ref = shapes["rc2"]
+    same = [name for name, shape in shapes.items() if shape == ref]
+    if len(same) == len(shapes):
+        rep.ok("BACKEND.engine-neutral", site2, "same enumeration for every engine", "apart from the engine handed to RC2 the enumeration is the same for every engine (paths, decisions, events)", extracted=f"{len(ref)} paths x {len(shapes)} names")
+    rep.floor("RC2 creations evaluated", n, len(NAMES))
 
 
 # ----------------------------------------------------------------------------------------------
